@@ -374,6 +374,10 @@ func (r *Run) checkProgress(P string) {
 	why := "if another commitment is recorded (e.g. the next one), the chain's first commitment is never marked consumed and a cycle back to it is applied: a commitment is consumed twice"
 	for _, c := range calls {
 		args := c.Common().Args
+		if len(args) < 5 {
+			r.R.Unk(P+".progress.consume", rule, core.FuncName(ao), r.P.Pos(c.Pos()), why, "applyFirstValidOperation is no longer called with (operations, state, current commitment, consumed set): the rule has to be re-pointed")
+			continue
+		}
 		cur, consumed := args[3], args[4]
 		n := 0
 		ok := true
